@@ -4,14 +4,14 @@ open Scrapli Scrapli.HostKey
 
 /-!
 line protocol (fields blank separated; strings as hex of their UTF-8, "-" = empty):
-  open <paramiko|ssh2|asyncssh> <11 bits: strict found equal importable hasKey keyLoads hasPw hasUser kexOK accKey accPw>
+  open <paramiko|ssh2|asyncssh> <12 bits: strict found equal importable hasKey keyLoads hasPw hasUser kexOK accKey accPw userUnpins>
         -> <trace> <protected 0/1>
-  openkh <lib> <8 bits: strict hasKey keyLoads hasPw hasUser kexOK accKey accPw> <host> <serverKey> <hmac table> <unimportable keys> <entries>
+  openkh <lib> <9 bits: strict hasKey keyLoads hasPw hasUser kexOK accKey accPw userUnpins> <host> <serverKey> <hmac table> <unimportable keys> <entries>
         -> <trace> <protected 0/1>
   lookup <host> <hmac table> <entries>   -> none | <keyType> <key>
   sys <host> <port> <tSocket> <tTransport> <keyFile> <username> <strictOff 0/1> <knownHosts> <configFile> <userArgs list>
         -> <argv list> <effective StrictHostKeyChecking | none> <effective UserKnownHostsFile | none>
-  hist <lib> <close 0/1>:<11 bits>;…   (attempts on ONE transport object, each on the first generated path)
+  hist <lib> <close 0/1>:<12 bits>;…   (attempts on ONE transport object, each on the first generated path)
         -> <trace>/<protected>/<sessionLeft after> joined by "|"
   order  -> the generated call lists and pinOf
 unimportable keys: `keyType:key` pairs asyncssh cannot load, joined by "," or "." (the `imp` parameter)
@@ -83,7 +83,8 @@ def callStr (p : Scrapli.HostKey.Call × Bool) : String :=
   let n := match p.1 with
     | .handshake => "handshake" | .verifyKey => "verifyKey" | .verifyPresent => "verifyPresent"
     | .verifyValue => "verifyValue"
-    | .connect pin fb => if pin then (if fb then "connect+pin-or-none" else "connect+pin") else "connect"
+    | .connect pin fb ov =>
+      (if pin then (if fb then "connect+pin-or-none" else "connect+pin") else "connect") ++ (if ov then "+user-options-after-pin" else "")
     | .authenticate => "authenticate" | .openChannel => "openChannel"
   if p.2 then n ++ "?" else n
 
@@ -95,17 +96,18 @@ def handleLine (line : String) : String :=
   match line.trimAscii.toString.splitOn " " with
   | ["open", lib, b] =>
     match libOf lib, bits b with
-    | some l, [a1, a2, a3, ai, a4, a5, a6, a7, a8, a9, a10] =>
+    | some l, [a1, a2, a3, ai, a4, a5, a6, a7, a8, a9, a10, au] =>
       traceStr (openOf l { strict := a1, found := a2, equal := a3, importable := ai, hasKey := a4, keyLoads := a5,
-                           hasPw := a6, hasUser := a7, kexOK := a8, accKey := a9, accPw := a10 })
+                           hasPw := a6, hasUser := a7, kexOK := a8, accKey := a9, accPw := a10, userUnpins := au })
     | _, _ => "bad-op"
   | ["openkh", lib, b, host, skey, tbl, unimp, ents] =>
     match libOf lib, bits b, parseEntries ents with
-    | some l, [a1, a4, a5, a6, a7, a8, a9, a10], some es =>
+    | some l, [a1, a4, a5, a6, a7, a8, a9, a10, au], some es =>
       let h := str host
       let bad := parseTable unimp
       traceStr (openOf l (cfgOf (hmacOf h (parseTable tbl)) (fun kt k => !(bad.contains (kt, k))) es h (str skey)
-        { strict := a1, hasKey := a4, keyLoads := a5, hasPw := a6, hasUser := a7, kexOK := a8, accKey := a9, accPw := a10 }))
+        { strict := a1, hasKey := a4, keyLoads := a5, hasPw := a6, hasUser := a7, kexOK := a8, accKey := a9, accPw := a10,
+          userUnpins := au }))
     | _, _, _ => "bad-op"
   | ["lookup", host, tbl, ents] =>
     match parseEntries ents with
@@ -136,10 +138,10 @@ def handleLine (line : String) : String :=
         match a.splitOn ":" with
         | [c, b] =>
           match bits b with
-          | [a1, a2, a3, ai, a4, a5, a6, a7, a8, a9, a10] =>
+          | [a1, a2, a3, ai, a4, a5, a6, a7, a8, a9, a10, au] =>
             some { closeBefore := c == "1", path := calls,
                    cfg := { strict := a1, found := a2, equal := a3, importable := ai, hasKey := a4, keyLoads := a5,
-                            hasPw := a6, hasUser := a7, kexOK := a8, accKey := a9, accPw := a10 } }
+                            hasPw := a6, hasUser := a7, kexOK := a8, accKey := a9, accPw := a10, userUnpins := au } }
           | _ => none
         | _ => none)
       if parsed.any Option.isNone then "bad-op" else
@@ -153,7 +155,7 @@ def handleLine (line : String) : String :=
     | none => "bad-op"
   | ["order"] =>
     let f := fun (l : List (Scrapli.HostKey.Call × Bool)) => ",".intercalate (l.map callStr)
-    s!"{f Scrapli.Gen.HostKey.paramikoOpenCalls} {f Scrapli.Gen.HostKey.ssh2OpenCalls} {f Scrapli.Gen.HostKey.asyncsshOpenCalls} {if pinOf Scrapli.Gen.HostKey.asyncsshOpenCalls then 1 else 0}{if fallbackOf Scrapli.Gen.HostKey.asyncsshOpenCalls then 1 else 0} paths={Scrapli.Gen.HostKey.paramikoOpenPaths.length},{Scrapli.Gen.HostKey.ssh2OpenPaths.length},{Scrapli.Gen.HostKey.asyncsshOpenPaths.length}"
+    s!"{f Scrapli.Gen.HostKey.paramikoOpenCalls} {f Scrapli.Gen.HostKey.ssh2OpenCalls} {f Scrapli.Gen.HostKey.asyncsshOpenCalls} overridable={if (connectFlags Scrapli.Gen.HostKey.asyncsshOpenCalls).2.2 then 1 else 0} paths={Scrapli.Gen.HostKey.paramikoOpenPaths.length},{Scrapli.Gen.HostKey.ssh2OpenPaths.length},{Scrapli.Gen.HostKey.asyncsshOpenPaths.length}"
   | _ => "bad-op"
 
 partial def loop (h : IO.FS.Stream) : IO Unit := do
